@@ -569,6 +569,8 @@ void ScriptVM::EventGoto(Event& ev)
     }
 
     m_CodePos = s->codepos;
+    // the first argument is the label: the label's parameters start behind it
+    ++fastIndex;
 }
 
 bool ScriptVM::EventThrow(Event& ev)
